@@ -30,7 +30,7 @@ CHECKS = {
         "model_checking",
         "breadth-first exploration of all declaration/scope event histories <= L over two names with a reference scope-stack state machine; every history x probe replayed on the real parser",
         "Every valid history of up to L scope/declaration events over two names (nesting depth <= 2) is generated from a reference scope stack; after every history each name is probed with four ambiguous statements and the real parser's classification (declaration/cast/type operand vs expression) must match the reference.",
-        "Bounded by history length, two names, depth 2; for-loop scopes are outside the property's quantifier and not generated.",
+        "Bounded by history length, two names, depth 2. Besides the declaration/scope events the histories contain statements whose parsing opens scopes of its own or looks one token ahead (for-declarations, if without else, switch, statement expression), K&R and abstract-parameter definition spellings; sub-checks: typedef-named labels in every sub-statement position, own-initializer visibility, enumerator own-value visibility; a declarator-list family (2-4 declarators, 7 introducing shapes).",
         "DESIGN.md §3.H, §4.7, §5 C04", "history-bfs"),
     "C05": (
         "model_checking",
@@ -100,9 +100,9 @@ CHECKS = {
         "DESIGN.md §5 C15", "sweep"),
     "C16": (
         "exploration",
-        "exhaustive sweep of a construct catalogue: every repeatable construct and every nestable construct alone, and every ordered pair of nestable constructs nested alternately, at doubling sizes; deterministic step counts (call events) as cost function; CPU-time families for every lexer regex",
+        "exhaustive sweep of a construct catalogue: every repeatable construct (also with distinct names per item) and every nestable construct alone, and every ordered pair of nestable constructs nested alternately, at doubling sizes; five deterministic cost counters (parser calls, all Python calls, calls of one function, bulk-container items moved by builtins, executed lines of one function) plus child-process timing for work none of them sees; CPU-time families for every lexer regex and directive form",
         "For every family of the catalogue (68 repeatable, 60 nestable constructs and all 3600 ordered pairs) the parser's deterministic step count is measured at doubling sizes and the marginal cost must not grow (s(4k)-s(2k) <= 2.5 (s(2k)-s(k))); 66 adversarial lexer families are timed with wide margins. Every family member must be accepted.",
-        "Bounded by the catalogue and the largest size run; call counts do not see loops that make no calls (recorded in the evidence); lexer part uses CPU time with a 50x margin.",
+        "Bounded by the catalogue and the largest size run; the evidence names the counter that decided each bad family; two open known findings are narrowed to the input families they were seen on; lexer part uses CPU time with wide margins and re-measures alone before it counts.",
         "DESIGN.md §3.F, §5 C16", "family"),
     "C17": (
         "exploration",
